@@ -16,8 +16,8 @@ LEVEL = "exploration"
 RULE = ("scenario = handshake with a correct peer, then 1..12 operations from send(str|bytes|bytearray, opcode), "
         "send_text, send_bytes, send_binary, ping, pong, send_frame(create_frame(data, opcode, fin)) (str also for continuation, "
         "ping, pong and binary opcodes; one frame object sent twice, with new data, or on a second connection that has another "
-        "key source), send_close, "
-        "close; payload lengths boundary-heavy; key source in {default os.urandom seam, custom bytes function, custom "
+        "key source; frame objects NOT built by create_frame: the constructor with str or bytes payload, with MASK flag 0, or a frame received from the echoing server and relayed), send_close, "
+        "close (reason as bytes or str); payload lengths boundary-heavy; key source in {default os.urandom seam, custom bytes function, custom "
         "ASCII str function, custom str function over all 256 byte values}; trace logging off/on; seeded short-write pattern.  Oracle: the bytes the peer received "
         "during each call decode (reference codec) to exactly one frame with the requested FIN/opcode, RSV=0, MASK=1, "
         "minimal length form, payload equal to the caller's bytes; the 4 key bytes equal the single draw the key "
@@ -25,7 +25,7 @@ RULE = ("scenario = handshake with a correct peer, then 1..12 operations from se
         "implementation) accepts the stream.  Enumerated completely: quick = lengths {0..5,124..129,65533..65538,70000} "
         "x {text, binary} x 3 key sources; thorough = every length 0..70000.  non-trivial = payload length >0 with a "
         "non-zero key; distinct = (operation, opcode, fin, length, len mod 4, key source, trace, short writes)")
-ASSUMPTIONS = ["reference decoder sim/rfc6455.py is correct", "str is not handed to send_binary / send_bytes / close reasons"]
+ASSUMPTIONS = ["reference decoder sim/rfc6455.py is correct", "str is not handed to send_binary / send_bytes"]
 BOUNDARY = [0, 1, 2, 3, 4, 5, 124, 125, 126, 127, 128, 129, 65533, 65534, 65535, 65536, 65537, 65538, 70000]
 
 
